@@ -1298,13 +1298,13 @@ def _machine(H, init, rules):
 _STEPS = {"quick": 20, "thorough": 50}
 SUBS = [
     Sub("scaler", lambda case, ctx: run_history(ScalerH, case, ctx), machine=_machine(ScalerH, scaler_init(), SCALER_RULES),
-        budget={"quick": 3840, "thorough": 24000}, steps=_STEPS, shrink=False, minimize=ops_minimizer, weight=3.0),
+        budget={"quick": 7680, "thorough": 24000}, steps=_STEPS, shrink=False, minimize=ops_minimizer, weight=3.0),
     Sub("ema", lambda case, ctx: run_history(EmaH, case, ctx), machine=_machine(EmaH, ema_init(), EMA_RULES),
-        budget={"quick": 1920, "thorough": 12000}, steps=_STEPS, shrink=False, minimize=ops_minimizer, weight=2.0),
+        budget={"quick": 3840, "thorough": 12000}, steps=_STEPS, shrink=False, minimize=ops_minimizer, weight=2.0),
     Sub("warmup", lambda case, ctx: run_history(WarmH, case, ctx), machine=_machine(WarmH, warm_init(), WARM_RULES),
-        budget={"quick": 2560, "thorough": 16000}, steps=_STEPS, shrink=False, minimize=ops_minimizer, weight=2.0),
+        budget={"quick": 5120, "thorough": 16000}, steps=_STEPS, shrink=False, minimize=ops_minimizer, weight=2.0),
     Sub("simple_baselines", simple_execute, strategy=lambda tier: simple_cases(tier),
-        budget={"quick": 3200, "thorough": 16000}, shards=8),
+        budget={"quick": 6400, "thorough": 16000}, shards=8),
     Sub("reinforce_loss", loss_execute, strategy=lambda tier: loss_cases(tier),
-        budget={"quick": 3200, "thorough": 16000}, shards=8),
+        budget={"quick": 6400, "thorough": 16000}, shards=8),
 ]
